@@ -506,6 +506,7 @@ type Clause struct {
 type LoopSpec struct {
 	Invariants []Clause
 	Each       []Clause // per-iteration postconditions (see execLoop)
+	EachPost   []Clause // the same, after the post statement
 	Unroll     int
 	Decreases  *Clause
 }
@@ -758,6 +759,15 @@ func (sp *Specs) loadSpecFile(path, pkgPath string) error {
 					c.Label = fmt.Sprintf("each%d", len(ls.Each))
 				}
 				ls.Each = append(ls.Each, c)
+			case "eachpost":
+				c, err := mkClause(r2, rc.line)
+				if err != nil {
+					return err
+				}
+				if c.Label == "" {
+					c.Label = fmt.Sprintf("eachpost%d", len(ls.EachPost))
+				}
+				ls.EachPost = append(ls.EachPost, c)
 			case "unroll":
 				n, err := strconv.Atoi(r2)
 				if err != nil {
@@ -976,6 +986,9 @@ func (ct *Contract) text() string {
 			b.WriteString(c.Src + "\n")
 		}
 		for _, c := range ls.Each {
+			b.WriteString(c.Src + "\n")
+		}
+		for _, c := range ls.EachPost {
 			b.WriteString(c.Src + "\n")
 		}
 	}
